@@ -98,6 +98,29 @@ package outlier
 //@   modifies gDeleted, mapof(nodeBreakers[resource])
 //@ ghost var gDeleted Int
 
+// time.AfterFunc only arms a timer: the function runs later on another goroutine (outside the thread-local model, like a
+// channel send); nothing of this thread's state changes
+//@ extern time.AfterFunc(d, f) t
+//@   ensures t != nil
+//@   modifies nothing
+
+// scheduling a reported node for recycling never touches the mark of a node that is already scheduled: a node that
+// has completed a request successfully since (marked recovered) stays marked, however often it is reported again;
+// a node seen for the first time is entered as "not recovered"
+//@ func (r *Recycler) scheduleNodes(nodes)
+//@   props C20
+//@   requires r != nil && r.status != nil
+//@   ensures[scheduled-nodes-keep-their-mark] forall k Str :: old(has(r.status, k)) ==> has(r.status, k) && r.status[k] == old(r.status[k])
+//@   ensures[new-nodes-pending] forall j Int :: 0 <= j && j < len(nodes) && !old(has(r.status, nodes[j])) ==> has(r.status, nodes[j]) && !r.status[nodes[j]]
+//@   ensures[only-reported-nodes-added] forall k Str :: has(r.status, k) && !old(has(r.status, k)) ==> !r.status[k]
+//@   modifies mapof(r.status)
+//@   loop 1:
+//@     invariant[scheduled-nodes-keep-their-mark] forall k Str :: old(has(r.status, k)) ==> has(r.status, k) && r.status[k] == old(r.status[k])
+//@     invariant[new-nodes-pending] forall j Int :: 0 <= j && j < #i && !old(has(r.status, nodes[j])) ==> has(r.status, nodes[j]) && !r.status[nodes[j]]
+//@     invariant[only-reported-nodes-added] forall k Str :: has(r.status, k) && !old(has(r.status, k)) ==> !r.status[k]
+//@     invariant[same-map] r.status == old(r.status) && r.status != nil
+//@     invariant[only-the-status-map-written] frame(mapof(r.status))
+
 //@ ghost var gRecoverN Int
 //@ func (r *Recycler) recover(node)
 //@   props C20
